@@ -285,7 +285,10 @@ func NewHTTPTargeter(src io.Reader, body []byte, hdr http.Header) Targeter {
 		tgt.Body = body
 		tgt.Header = http.Header{}
 		for k, vs := range hdr {
-			tgt.Header[k] = vs
+			// Copy the default values: headers of the target are appended
+			// to them and must neither end up in hdr's backing arrays nor
+			// in Targets decoded earlier.
+			tgt.Header[k] = append([]string(nil), vs...)
 		}
 
 		tokens := strings.SplitN(line, " ", 2)
